@@ -285,7 +285,8 @@ def check_decode_reaches_every_value(ctx, F, tag, prefix):
         end = None
         for x in subterms(b.term_of_operand(t["args"][0])):
             if x[0] == "adt" and x[1] == "std::ops::Range" and len(x) > 4:
-                st_, en_ = peel(x[4][0]), peel(x[4][1])
+                from pat import fold_consts
+                st_, en_ = peel(fold_consts(x[4][0])), peel(fold_consts(x[4][1]))
                 if st_[:2] == ("const", 0) and en_[0] == "const" and isinstance(en_[1], int):
                     end = en_[1]
         if end is None:
